@@ -353,6 +353,17 @@ type FrOfPmTreeHasher = FrOf<PmTreeHasher>;
 
 impl PmTree {
     fn remove_indices(&mut self, indices: &[usize]) -> Result<()> {
+        // Positions at or beyond the high-water mark were never written: as for a single deletion,
+        // removing them changes nothing (in particular it must not advance the mark)
+        let next_index = self.tree.leaves_set();
+        let indices: Vec<usize> = indices
+            .iter()
+            .copied()
+            .filter(|&i| i < next_index)
+            .collect();
+        if indices.is_empty() {
+            return Ok(());
+        }
         let start = indices[0];
         let end = indices.last().unwrap() + 1;
 
@@ -371,7 +382,7 @@ impl PmTree {
             .map_err(|e| Report::msg(e.to_string()))?;
 
         for i in indices {
-            self.cached_leaves_indices[*i] = 0
+            self.cached_leaves_indices[i] = 0
         }
         Ok(())
     }
